@@ -17,7 +17,8 @@ def run(ctx):
               "Exact tier: integer entries in -8..8 (-3..3 for chains of 3-4), every operation exact in float => equality. Rounded tier: entries "
               "+-2^[-20,20] (2^[-8,8] for longer chains), bound 4*gamma_{(N+2)len}(u) * (|A1|..|Ak||x|)_i from running error analysis. Factories "
               "translation/scaling/identity compared entry-wise with the textbook matrices, scaling*translation as the examples build it; the "
-              "layer affine<identity<realN>> through both view lookup forms. non-trivial: not the identity and (for products) the first two "
+              "layer affine<identity<realN>> through both view lookup forms, and affine over a probe backend with M != N outputs that returns an "
+              "injective function of the coordinate it is asked for (every one of the N components of A.x+t must reach the backend). non-trivial: not the identity and (for products) the first two "
               "factors do not commute on the operand; distinct = hash of (instantiation, matrices, operand)"),
         assumptions=["rounded tier: no intermediate overflow/underflow by construction of the exponent ranges",
                      "binary128 reference is exact for the exact tier and has 113-bit precision for the rounded tier"])
